@@ -8,3 +8,4 @@ open Martian.Props.C20
 #print axioms clamp_or_416
 #print axioms clean_rooted_has_no_dotdot
 #print axioms resolved_under_root
+#print axioms resolved_bytes_under_root
